@@ -93,6 +93,9 @@ func chunk(b []byte, text bool, p *picker) [][]byte {
 	}
 	for len(b) > 0 {
 		n := 1 + p.pick(len(b))
+		if p.r == nil {
+			n = (len(b) + 1) / 2 // deterministic mode: two chunks
+		}
 		if p.r != nil && p.pick(4) == 0 {
 			n = 0 // an empty chunk in between
 		}
